@@ -152,7 +152,8 @@ DoParse ==
           /\ st' = PEff(st, e1)
           /\ w' = newW
           /\ start' = st1 /\ edges' = es1
-          /\ ops' = IF EmitOps THEN Append(ops, [op |-> "parse", flags |-> fl]) ELSE ops
+          /\ ops' = IF EmitOps THEN Append(ops, [op |-> "parse", flags |-> fl,
+                                                  expect |-> [n |-> newW - w, seqs |-> r.seqs]]) ELSE ops
     /\ UNCHANGED <<t, avail, cf>>
 
 WriteRest ==
